@@ -31,6 +31,12 @@ def build_cases(tier, seed):
     rp = fam.prof_list(fam.rank_family(3), 2, (1, 2), fam.cands(3))
     for c in (rp[:30] + rp[30::4] if tier == "quick" else rp):
         cs.append(("rank", "int", c))
+    # three ballot types over bullet and two-choice ballots: multi-round elections in which the first-round leader does
+    # not win (transfers decide); only the multi-round rules are run on these (see run_case)
+    nine = fam.bullet_family(3) + [r for r in fam.rank_family(3) if len(r) == 2]
+    k3 = [c for c in fam.prof_list(nine, 3, (1, 2), fam.cands(3)) if len(c[1]) == 3]
+    for c in (k3[::4] if tier == "quick" else k3):
+        cs.append(("rank3", "int", c))
     wk = common.weak_profiles("quick")
     for c in (wk[::9] if tier == "quick" else wk):
         cs.append(("weak", "int", c))
@@ -43,7 +49,7 @@ def build_cases(tier, seed):
     _CASES = cs
     meta = {
         "family": "finished elections of every rule class on " + ("the 30 single-type and every 4th two-type profile of " if tier == "quick" else "")
-                  + "Prof(Rank(3),2,{1,2}) (+ a slice of Prof(Weak(3),2,{1,2}) for tie-tolerant rules and of the "
+                  + "Prof(Rank(3),2,{1,2}), three-type profiles over Bullet(3)+Len2(3) with weights {1,2} for the multi-round rules (+ a slice of Prof(Weak(3),2,{1,2}) for tie-tolerant rules and of the "
                   "score profiles for score rules), " + ("one configuration per code path" if tier == "quick" else "all configurations of the C01 menu")
                   + ", restricted to constructions that consumed no random choice; events = 7 queries x r in "
                   + ("{-L-2,-L-1,-1,0,1,L,L+1}" if tier == "quick" else "{-L-2..L+1}") + " + len + str",
@@ -58,7 +64,8 @@ def _get(i):
 
 
 def case_json(i):
-    return c01.case_json(_get(i))
+    kind, tag, c = _get(i)
+    return c01.case_json(("rank" if kind == "rank3" else kind, tag, c))
 
 
 def case_from_json(j):
@@ -243,7 +250,10 @@ def run_case(i, tier):
     kind, tag, case = _get(i)
     cnt = collections.Counter()
     out = {"counters": cnt, "viols": []}
-    for (label, vrule, kw, exp_m, spec) in quick_menu(kind, tag, case, tier):
+    mkind = "rank" if kind == "rank3" else kind
+    for (label, vrule, kw, exp_m, spec) in quick_menu(mkind, tag, case, tier):
+        if kind == "rank3" and label not in ("TopTwo", "Alaska", "IRV", "STV", "SequentialRCV"):
+            continue
         if kind == "score":
             L_, k_ = common.score_rule_limits(vrule, kw)
             if not all(common.score_ballot_valid(sc, L_, k_) for sc, _ in case[1]):
